@@ -23,7 +23,7 @@ var h1Ops = []string{"upsert", "delete", "compact", "round", "deliver", "drop", 
 
 var h1Profiles = map[string][]int{
 	//        ups del cmp rnd dlv drp dup fls join lve adv liv exp add crash
-	"C02": {18, 8, 5, 22, 30, 6, 5, 3, 2, 1, 1, 0, 0, 1, 0},
+	"C02": {18, 8, 5, 22, 30, 6, 5, 3, 2, 1, 1, 1, 1, 1, 1},
 	"C03": {16, 8, 5, 20, 22, 10, 3, 2, 2, 1, 1, 0, 0, 1, 0},
 	"C13": {24, 6, 4, 24, 30, 4, 3, 3, 2, 0, 0, 0, 0, 1, 0},
 	"C14": {16, 12, 9, 22, 28, 5, 4, 3, 2, 1, 2, 2, 2, 1, 0},
